@@ -314,7 +314,8 @@ SelH(v, D, s) ==
 Leeway == 60
 Guard == 120
 TimeVerdict(exp, nbf, t0, t1) ==
-  IF exp.k # "int" THEN "reject"
+  IF exp.k \in {"absent", "nan"} THEN "reject"
+  ELSE IF exp.k = "float" \/ nbf.k \in {"float", "nan"} THEN "free"        \* fractional instants / non-numeric nbf: outside the property's quantifier
   ELSE IF exp.v < t0 - Guard THEN "reject"
   ELSE IF nbf.k = "int" /\ nbf.v > t1 + Guard THEN "reject"
   ELSE IF exp.v > t1 + Guard /\ (nbf.k = "absent" \/ (nbf.k = "int" /\ nbf.v < t0 - Guard)) THEN "accept"
